@@ -586,9 +586,11 @@ impl Address {
                 let prefix_tail = if self.is_malformed() {
                     "_malformed"
                 } else {
-                    match self.network_id()? {
-                        id if id == NetworkInfo::testnet_preprod().network_id() => "_test",
-                        id if id == NetworkInfo::testnet_preview().network_id() => "_test",
+                    // a Byron address of an unknown network (a private testnet) has no prefix of its own,
+                    // which is no reason to have no bech32 form at all: the prefix does not affect the data
+                    match self.network_id() {
+                        Ok(id) if id == NetworkInfo::testnet_preprod().network_id() => "_test",
+                        Ok(id) if id == NetworkInfo::testnet_preview().network_id() => "_test",
                         _ => "",
                     }
                 };
